@@ -23,10 +23,10 @@ BOUNDS = {
     'quick': {'single': 'id relation {equal, symbolic int, symbolic str(len<=2), null, absent} x {result, error} x strict x sync/async; request id int or str',
               'batch': '1..2 calls (+ optional notification), response arrays of 0..n+1 elements over {ok int id, error int id, ok str id, ok null id}',
               'nonresponse': 'bodies of every non-response JSON kind, objects with neither / both of result and error, wrong version'},
-    'thorough': {'single': 'as quick', 'batch': '1..3 calls, arrays 0..n+1 over the 4 element kinds', 'nonresponse': 'as quick'},
+    'thorough': {'single': 'as quick', 'batch': '1..3 calls, arrays 0..n+1 over the 4 element kinds; 4 calls with arrays of 3..5 int-id elements', 'nonresponse': 'as quick'},
 }
 STUBS = ['S1', 'S4', 'S5', 'S7 scripted transport', 'S13']
-OUTSIDE = ['batches of 4 calls', 'string request ids in batches']
+OUTSIDE = ['batches of more than 4 calls', 'string request ids in batches']
 ASSUMPTIONS = []
 BUDGET = {'quick': 40.0, 'thorough': 150.0}
 RESP_ELEMS = ('ok_i', 'err_i', 'ok_s', 'ok_n')
@@ -62,6 +62,14 @@ def obligations(tier):
                     for notif in ((False, True) if ncalls == 2 else (False,)):
                         obs.append({'h': 'batch', 'ncalls': ncalls, 'els': list(combo), 'notif': notif, 'strict': strict,
                                     'kind': kind, '_weight': 4 ** n})
+    if tier == 'thorough':
+        for kind, strict in it.product(('sync', 'async'), (True,)):
+            for n in range(3, 6):
+                for combo in it.product(('ok_i', 'err_i'), repeat=n):
+                    if combo.count('err_i') > 1:
+                        continue
+                    obs.append({'h': 'batch', 'ncalls': 4, 'els': list(combo), 'notif': False, 'strict': strict, 'kind': kind,
+                                '_weight': 4 ** n, '_budget': 400.0})
     return obs
 
 
